@@ -1037,6 +1037,19 @@ func ModifyRegister(register *object.Register, in ast.Node) (ast.Node, bool) {
 			return nil, false
 		}
 	case *ast.Builtin:
+		if in.Type() == token.QUOTE {
+			// quoted code keeps the name: check if it mentions it (children were already replaced).
+			mentions := false
+			ast.ModifyNoOk(in, func(n ast.Node) ast.Node {
+				if r, ok := n.(*object.Register); ok && r == register {
+					mentions = true
+				}
+				return n
+			})
+			if mentions {
+				return nil, false
+			}
+		}
 		if in.Type() == token.DEL && len(in.Parameters) == 1 {
 			if r, ok := in.Parameters[0].(*object.Register); ok && r == register {
 				return nil, false
